@@ -275,12 +275,15 @@ func (*reader).SetPosition
   loop 0 dec head
 
 // ---- blockReader: a cursor over a list of line segments (C18) ----
+fun max0(x int) int = (x >= 0 ? x : 0)
+// (a segment of negative length counts as empty, so lrem is non-negative by construction; under segsOK
+// every line is non-empty and max0 is the identity)
 // lrem(a, j, n): total view length (padding + bytes) of the segments j..n-1 of struct array a (absolute indices)
 ghost lrem(a int, j int, n int) int
 defaxiom lremDef: (forall a int, j int, n int {lrem(a, j, n)} :: j >= n ==> lrem(a, j, n) == 0) &&
   (forall a int, j int, n int {lrem(a, j, n)} :: j < n ==> lrem(a, j, n) ==
-     elem(a, j, "Segment").Padding + elem(a, j, "Segment").Stop - elem(a, j, "Segment").Start + lrem(a, j+1, n)) &&
-  (forall a int, j int, n int {lrem(a, j, n)} :: lrem(a, j, n) >= 0 || true)
+     max0(elem(a, j, "Segment").Padding + elem(a, j, "Segment").Stop - elem(a, j, "Segment").Start) + lrem(a, j+1, n)) &&
+  (forall a int, j int, n int {lrem(a, j, n)} :: lrem(a, j, n) >= 0)
 
 macro segs(r) = r.segments.values
 // segsOK: every line lies inside the source, is non-empty, lines are in increasing order
@@ -302,11 +305,13 @@ func (*blockReader).Source
 
 func (*blockReader).Position
   refines text.Reader.Position via rdB
+  uses lremDef
   ensures result0 == r.line && sameSeg(result1, r.pos)
   modifies nothing
 
 func (*blockReader).SetPadding
   refines text.Reader.SetPadding via rdB
+  uses lremDef
   requires brInv(r) && v >= 0
   ensures brInv(r) && r.pos.Padding == v && r.pos.Start == old(r.pos.Start) && r.pos.Stop == old(r.pos.Stop) && r.line == old(r.line)
   ensures r.lineOffset == -1
@@ -314,6 +319,7 @@ func (*blockReader).SetPadding
 
 func (*blockReader).SetPosition
   refines text.Reader.SetPosition via rdB
+  uses lremDef
   requires brBase(r) && line >= 0
   requires (pos.Start != -1 && line < r.segmentsLength) ==> (segs(r)[line].Start <= pos.Start && pos.Start <= pos.Stop && pos.Stop == segs(r)[line].Stop && pos.Padding >= 0 && (pos.Stop < r.last ==> pos.Start < pos.Stop))
   ensures brInv(r) && r.line == line && r.lineOffset == -1
@@ -324,6 +330,7 @@ func (*blockReader).SetPosition
 
 func (*blockReader).AdvanceLine
   refines text.Reader.AdvanceLine via rdB
+  uses lremDef
   requires brInv(r)
   ensures brInv(r) && r.line == old(r.line) + 1 && r.lineOffset == -1
   ensures r.line < r.segmentsLength ==> sameSeg(r.pos, segs(r)[r.line])
@@ -331,7 +338,7 @@ func (*blockReader).AdvanceLine
 
 func (*blockReader).Peek
   refines text.Reader.Peek via rdB
-  uses spaceFacts
+  uses spaceFacts, lremDef
   requires brInv(r)
   ensures (r.line < r.segmentsLength && r.pos.Start < r.last) ==> result == (r.pos.Padding != 0 ? ' ' : r.source[r.pos.Start])
   ensures !(r.line < r.segmentsLength && r.pos.Start < r.last) ==> result == 255
@@ -339,6 +346,7 @@ func (*blockReader).Peek
 
 func (*blockReader).PeekLine
   refines text.Reader.PeekLine via rdB
+  uses lremDef
   requires brInv(r)
   ensures sameSeg(result1, r.pos)
   ensures (r.line < r.segmentsLength && r.pos.Start < r.last) ==> (result0 != nil &&
@@ -364,11 +372,14 @@ func (*blockReader).Advance
   requires brInv(r) && 0 <= n && n <= remB(r)
   ensures brInv(r) && r.lineOffset == -1
   ensures [moved] remB(r) == old(remB(r)) - n
-  ensures [sameLine] n < old(r.pos.Padding + r.pos.Stop - r.pos.Start) ==> (r.line == old(r.line) && r.pos.Stop == old(r.pos.Stop))
+  ensures [sameLine] (n < old(r.pos.Padding + r.pos.Stop - r.pos.Start) && old(r.line < r.segmentsLength && r.pos.Start < r.pos.Stop)) ==> (r.line == old(r.line) && r.pos.Stop == old(r.pos.Stop) &&
+     r.pos.Padding + r.pos.Stop - r.pos.Start == old(r.pos.Padding + r.pos.Stop - r.pos.Start) - n && r.pos.Start < r.pos.Stop)
   modifies r.lineOffset, r.line, r.head, r.pos
   loop 0 inv brInv(r) && r.lineOffset == -1 && 0 <= n && n <= remB(r)
   loop 0 inv [moved] remB(r) - n == old(remB(r)) - old(n)
-  loop 0 inv [sameLine] (old(n) - n) < old(r.pos.Padding + r.pos.Stop - r.pos.Start) ==> (r.line == old(r.line) && r.pos.Stop == old(r.pos.Stop) && r.pos.Padding + r.pos.Stop - r.pos.Start == old(r.pos.Padding + r.pos.Stop - r.pos.Start) - (old(n) - n))
+  loop 0 inv [sameLine] ((old(n) - n) < old(r.pos.Padding + r.pos.Stop - r.pos.Start) && old(r.line < r.segmentsLength && r.pos.Start < r.pos.Stop)) ==> (r.line == old(r.line) && r.pos.Stop == old(r.pos.Stop) &&
+     r.pos.Padding == ((old(n) - n) <= old(r.pos.Padding) ? old(r.pos.Padding) - (old(n) - n) : 0) &&
+     r.pos.Start == old(r.pos.Start) + ((old(n) - n) <= old(r.pos.Padding) ? 0 : (old(n) - n) - old(r.pos.Padding)))
   loop 0 dec n
 
 func (*blockReader).AdvanceAndSetPadding
@@ -423,10 +434,10 @@ iface text.Reader.Peek
   modifies nothing
 
 iface text.Reader.Advance
-  requires rdOK(recv) && 0 <= n && n <= rdRem(recv)
+  requires rdOK(recv) && 0 <= arg0 && arg0 <= rdRem(recv)
   ensures rdOK(recv)
-  ensures [moved] rdRem(recv) == old(rdRem(recv)) - n
-  ensures [sameLine] (old(rdLive(recv)) && n < old(rdLen(recv))) ==> (rdLive(recv) && rdLine(recv) == old(rdLine(recv)) && rdStop(recv) == old(rdStop(recv)) && rdLen(recv) == old(rdLen(recv)) - n)
+  ensures [moved] rdRem(recv) == old(rdRem(recv)) - arg0
+  ensures [sameLine] (old(rdLive(recv)) && arg0 < old(rdLen(recv))) ==> (rdLive(recv) && rdLine(recv) == old(rdLine(recv)) && rdStop(recv) == old(rdStop(recv)) && rdLen(recv) == old(rdLen(recv)) - arg0)
   modifies rdRep, rdLive, rdLine, rdStart, rdStop, rdPad, rdRem
 
 iface text.Reader.AdvanceLine
@@ -435,9 +446,9 @@ iface text.Reader.AdvanceLine
   modifies rdRep, rdLive, rdLine, rdStart, rdStop, rdPad, rdRem
 
 iface text.Reader.AdvanceAndSetPadding
-  requires rdOK(recv) && 0 <= n && n <= rdRem(recv) && padding >= 0
+  requires rdOK(recv) && 0 <= arg0 && arg0 <= rdRem(recv) && arg1 >= 0
   ensures rdOK(recv)
-  ensures [sameLine] (old(rdLive(recv)) && n < old(rdLen(recv))) ==> (rdLive(recv) && rdLine(recv) == old(rdLine(recv)) && rdStop(recv) == old(rdStop(recv)))
+  ensures [sameLine] (old(rdLive(recv)) && arg0 < old(rdLen(recv))) ==> (rdLive(recv) && rdLine(recv) == old(rdLine(recv)) && rdStop(recv) == old(rdStop(recv)))
   modifies rdRep, rdLive, rdLine, rdStart, rdStop, rdPad, rdRem
 
 iface text.Reader.SetPadding
